@@ -50,7 +50,7 @@ def judge(case, impl, spec):
     return "unexpected output: " + impl
 
 def gen(tier, rng):
-    n = 3000 if tier == "quick" else 60000
+    n = 3000 if tier == "quick" else 400000
     cases = []
     for _ in range(n):
         nv, doms, props = plevel.rand_model(rng, ["lineq", "linle", "linne"], maxvars=4, maxprops=3, maxprod=600)
